@@ -228,6 +228,8 @@ def gen_cases(tier: str, seed: int):
         if spec["constr"] in ("hyperplanes2", "two_quadrics"):
             spec["dim"] = max(spec["dim"], 3)
         ispec = intgen.random_int_spec(rng, k, tight=bool(rng.integers(0, 3) == 0), kinds=("constrained",))
+        if i % 4 == 3:  # starve the solver: it must raise, never return an unconverged state
+            ispec["solver_kwargs"] = dict(ispec.get("solver_kwargs", {}), max_iters=int(rng.integers(1, 6)))
         case = {"kind": "steps" if i < n else "chain", "spec": spec, "ispec": ispec,
                 "frac": float(np.exp(rng.uniform(np.log(0.003), np.log(2.5)))), "n": int(rng.integers(1, 11)),
                 "seed": [seed, int(rng.integers(0, 2**31))]}
